@@ -179,18 +179,86 @@ theorem mpRun_spec (w : LW R) (tasks : List (List Nat)) (order : List Nat) (b : 
             · exact hd ⟨h, hl⟩
           rw [if_neg hk, if_neg this]
 
-/-- a store outside the buffer is reported (the model does not hide it):
-    a task index that is no event index makes the run fail as soon as the matrix
-    has an outcome row -/
+/-- a successful store keeps the size of the buffer -/
+theorem MPBuf.write_size (b b' : MPBuf R) (c : Nat) (v : R) (h : b.write c v = some b') :
+    b'.cells.size = b.cells.size := by
+  unfold MPBuf.write at h
+  split at h
+  · cases h; simp
+  · cases h
+
+/-- one column: if SOME row of `rows` addresses a cell that does not exist, the
+    column write is reported as failed — whatever the earlier stores (to cells
+    that do exist) did -/
+theorem mpWriteColumn_none (nEv k : Nat) (col : List R) (rows : List Nat) (b : MPBuf R)
+    (hex : ∃ i ∈ rows, ¬ mpCell nEv i k < b.cells.size) : mpWriteColumn nEv k col rows b = none := by
+  induction rows generalizing b with
+  | nil => obtain ⟨i, hi, _⟩ := hex; cases hi
+  | cons j rows ih =>
+    simp only [mpWriteColumn]
+    cases hw : b.write (mpCell nEv j k) (col.getD j 0) with
+    | none => rfl
+    | some b' =>
+      simp only
+      apply ih
+      obtain ⟨i, hi, hout⟩ := hex
+      rcases List.mem_cons.mp hi with h | h
+      · subst h
+        exfalso
+        have : mpCell nEv i k < b.cells.size := by
+          by_contra hc
+          rw [MPBuf.write_none b _ _ hc] at hw
+          cases hw
+        exact hout this
+      · exact ⟨i, h, by rw [MPBuf.write_size b b' _ _ hw]; exact hout⟩
+
+/-- **a store outside the buffer is reported** (the model does not hide it), at
+    the TRUE bound: a task whose index `k` is no event index (`nEv ≤ k`) makes
+    the run fail as soon as the matrix has an outcome row — for EVERY number of
+    outcome rows (the store of the LAST row, cell `(nOut-1)*nEv + k ≥ nOut*nEv`,
+    is outside; the stores of earlier rows may land in existing cells of other
+    columns first).  (The earlier statement asked for `nOut * nEv ≤ k`; the
+    second review's example `mpTask exW 3 buf 3 [0] = none`, `k = 3 < 6`, is
+    covered by this one.) -/
+theorem mpTask_event_index_out_of_range (w : LW R) (nEv : Nat) (b : MPBuf R) (k : Nat) (idx : List Nat)
+    (hrow : 0 < w.outcomes.length) (hsize : b.cells.size = w.outcomes.length * nEv)
+    (hk : nEv ≤ k) : mpTask w nEv b k idx = none := by
+  unfold mpTask
+  apply mpWriteColumn_none
+  refine ⟨w.outcomes.length - 1, List.mem_range.mpr (by omega), ?_⟩
+  rw [hsize]
+  unfold mpCell
+  have h1 : (w.outcomes.length - 1) * nEv + nEv = w.outcomes.length * nEv := by
+    have : w.outcomes.length = (w.outcomes.length - 1) + 1 := by omega
+    conv_rhs => rw [this, Nat.add_mul, Nat.one_mul]
+  omega
+
+/-- the weaker form (`nOut * nEv ≤ k`), a corollary -/
 theorem mpTask_out_of_range (w : LW R) (nEv : Nat) (b : MPBuf R) (k : Nat) (idx : List Nat)
     (hrow : 0 < w.outcomes.length) (hsize : b.cells.size = w.outcomes.length * nEv)
-    (hk : w.outcomes.length * nEv ≤ k) : mpTask w nEv b k idx = none := by
-  unfold mpTask
-  obtain ⟨n, hn⟩ : ∃ n, w.outcomes.length = n + 1 := ⟨w.outcomes.length - 1, by omega⟩
-  rw [hn, List.range_succ_eq_map]
-  simp only [mpWriteColumn]
-  rw [MPBuf.write_none]
-  simp only [mpCell]; omega
+    (hk : w.outcomes.length * nEv ≤ k) : mpTask w nEv b k idx = none :=
+  mpTask_event_index_out_of_range w nEv b k idx hrow hsize
+    (Nat.le_trans (Nat.le_mul_of_pos_left nEv hrow) hk)
+
+/-- hence a pool run whose `order` contains an entry that is no event index
+    fails (with at least one outcome row), whatever the other entries are -/
+theorem mpRun_none_of_bad_index (w : LW R) (tasks : List (List Nat)) (order : List Nat) (b : MPBuf R)
+    (hrow : 0 < w.outcomes.length) (hsize : b.cells.size = w.outcomes.length * tasks.length)
+    (hbad : ∃ k ∈ order, tasks.length ≤ k) : mpRun w tasks order b = none := by
+  induction order generalizing b with
+  | nil => obtain ⟨k, hk, _⟩ := hbad; cases hk
+  | cons j ks ih =>
+    simp only [mpRun]
+    by_cases hj : tasks.length ≤ j
+    · rw [mpTask_event_index_out_of_range w tasks.length b j _ hrow hsize hj]
+    · obtain ⟨b1, h1, hs1, _, _⟩ := mpTask_spec w tasks.length b j (tasks.getD j []) (by omega) hsize
+      rw [h1]
+      simp only
+      apply ih b1 (by rw [hs1, hsize])
+      obtain ⟨k, hk, hge⟩ := hbad
+      rcases List.mem_cons.mp hk with h | h
+      · subst h; exact absurd hge hj
+      · exact ⟨k, h, hge⟩
 
 /-! ## the trace: every cell exactly once -/
 
